@@ -645,6 +645,11 @@ var libDecryptCalls int64
 // libDecrypt decrypts with the library, reading the plaintext in one of several caller styles (the result must not
 // depend on it): io.ReadAll, io.Copy, a short Read followed by io.Copy, small reads.
 func libDecrypt(w *world.World, file []byte, armored bool, id string) ([]byte, error) {
+	pols := strm.BulkPolicies
+	return libDecryptWith(w, file, armored, id, pols[int(atomic.AddInt64(&libDecryptCalls, 1))%len(pols)])
+}
+
+func libDecryptWith(w *world.World, file []byte, armored bool, id string, pol string) ([]byte, error) {
 	var in io.Reader = bytes.NewReader(file)
 	if armored {
 		in = armor.NewReader(in)
@@ -653,8 +658,7 @@ func libDecrypt(w *world.World, file []byte, armored bool, id string) ([]byte, e
 	if err != nil {
 		return nil, err
 	}
-	pols := []string{"readall", "sniffcopy", "copy", "buf4096", "copyplain"}
-	res := strm.Drain(r, pols[int(atomic.AddInt64(&libDecryptCalls, 1))%len(pols)])
+	res := strm.Drain(r, pol)
 	if res.Panic != nil {
 		return res.Data, fmt.Errorf("panic: %v", res.Panic)
 	}
@@ -746,11 +750,20 @@ func corpus(run *vk.Run, t *Terms) {
 		if hex.EncodeToString(h[:]) != e.SHA256 && !hasRSA {
 			vk.Infra("corpus file %s does not match its recorded hash (the evaluator or the specification changed)", e.Name)
 		}
-		for _, r := range e.Rs {
-			got, err := libDecrypt(w, file, e.Armored, r.ID)
-			run.Eval(1)
-			if err != nil || !bytes.Equal(got, pt) {
-				run.Violation("C05:corpus-file-does-not-decrypt:"+e.Name, fmt.Sprintf("frozen corpus file %s (recipients %s, %d bytes, armor=%v) with identity %s: %v", e.Name, rsSig(e.Rs), e.N, e.Armored, r.ID, err), map[string]interface{}{"check": "C05.corpus", "name": e.Name})
+		for ri, r := range e.Rs {
+			// the files whose last chunk is full are read in every caller style (the end of such a file is found by
+			// trial decryption: what the reader does with the caller's buffer matters there), the others in one
+			pols := []string{strm.BulkPolicies[(i+ri)%len(strm.BulkPolicies)]}
+			if e.N > 0 && e.N%65536 == 0 && ri == 0 {
+				pols = strm.BulkPolicies
+			}
+			for _, pol := range pols {
+				got, err := libDecryptWith(w, file, e.Armored, r.ID, pol)
+				run.Eval(1)
+				if err != nil || !bytes.Equal(got, pt) {
+					run.Violation("C05:corpus-file-does-not-decrypt:"+e.Name, fmt.Sprintf("frozen corpus file %s (recipients %s, %d bytes, armor=%v) with identity %s, read as %q: %d bytes, %v", e.Name, rsSig(e.Rs), e.N, e.Armored, r.ID, pol, len(got), err), map[string]interface{}{"check": "C05.corpus", "name": e.Name, "read": pol})
+					break
+				}
 			}
 		}
 		run.Distinct("corpus:" + e.Name)
